@@ -17,12 +17,51 @@ def run(ctx: Ctx):
     slot_families(ctx, "R20.a", only_family="STATE", floor=False, check_ru=False, producers=lambda p: p.func.rel.endswith("sympytools.py"))
 
     ctx.rule("R20.b", "the substitution of intermediates runs to a fixpoint: its bound is absent or derived from the size of the model, it always substitutes the complete map, and an error is raised only if intermediates are left", floor=6)
+    from sa import av as _av
+
+    from . import util
+    from .common import cond_chain
+
     f = sm.func("sympytools.py", "rhs_matrix")
-    whiles = [n for n in ast.walk(f.node) if isinstance(n, ast.While)]
-    ctx.require(whiles, "rhs_matrix: substitution loop not found")
-    w = whiles[0]
+    # the substitution loop: the while / for loop that applies xreplace / subs
+    loops = [n for n in ast.walk(f.node) if isinstance(n, (ast.While, ast.For)) and any(isinstance(c, ast.Call) and isinstance(c.func, ast.Attribute) and c.func.attr in ("xreplace", "subs") for c in ast.walk(n))]
+    ctx.require(loops, "rhs_matrix: substitution loop not found")
+    w = loops[0]
+    xr = [c for c in ast.walk(w) if isinstance(c, ast.Call) and isinstance(c.func, ast.Attribute) and c.func.attr in ("xreplace", "subs")]
+    mnames = {norm(c.args[0]) for c in xr if len(c.args) == 1 and isinstance(c.args[0], ast.Name)}
+    mname = sorted(mnames)[0] if len(mnames) == 1 else None
+    A20 = util.AV(ctx)
+    _v, env20 = A20.returned(f)
+    mapv = env20.get(mname) if mname else None
+
+    def left_pred(node) -> bool:
+        """node evaluates to 'some key of the substitution map occurs in the matrix'"""
+        if mapv is None:
+            return False
+        env = {p_: ("sym", p_) for p_ in f.params}
+        for k_, x_ in env20.items():
+            if isinstance(x_, tuple) and x_ and x_[0] == "fn":
+                env[k_] = x_
+        env[mname] = ("sym", "<MAP>")
+        try:
+            val = A20.expr(node, env=env, func=f)
+        except Exception:
+            return False
+        val = _av.canon_binders(val)
+        if val[0] == "not":
+            val = val[1]
+        if val[0] == "call" and val[1] == "any" and len(val[2]) == 1 and val[2][0][0] == "comp":
+            cp = val[2][0]
+            src_ok = _av._unwrap_seq(cp[2]) in (("sym", "<MAP>"), ("mcall", ("sym", "<MAP>"), "keys", (), ()))
+            it_ok = len(cp[3]) == 1 and cp[3][0][0] == "mcall" and cp[3][0][2] == "has" and cp[3][0][3] == (("bv", cp[1]),) and not cp[4]
+            return src_ok and it_ok
+        return False
+
     # 1. bound
-    bound_params = [p for p in f.params if any(isinstance(n, ast.Name) and n.id == p for n in ast.walk(w.test)) and p != f.params[0]]
+    if isinstance(w, ast.While):
+        bound_params = [p for p in f.params if any(isinstance(n, ast.Name) and n.id == p for n in ast.walk(w.test)) and p != f.params[0]]
+    else:
+        bound_params = [p for p in f.params if any(isinstance(n, ast.Name) and n.id == p for n in ast.walk(w.iter)) and p != f.params[0]]
     a = f.node.args
     defaults = dict(zip([x.arg for x in a.args][len(a.args) - len(a.defaults):], a.defaults))
     for p in bound_params:
@@ -35,19 +74,23 @@ def run(ctx: Ctx):
         if is_none:
             ctx.check(okr, "R20.b", f.key(f"bound-derived::{p}"), f"{p} = {norm(repl[0].value) if repl else None}", f"rhs_matrix: when `{p}` is None it is not replaced by a bound derived from the number of intermediates", f.where())
     if not bound_params:
-        ctx.ok("R20.b", f.key("unbounded"), "loop has no iteration bound", f.where())
+        if isinstance(w, ast.For):
+            ctx.fail("R20.b", f.key("unbounded"), f"rhs_matrix iterates `{norm(w.iter)}`: the number of passes is not derived from the caller's bound or the size of the model", f.where(w))
+        else:
+            ctx.ok("R20.b", f.key("unbounded"), "loop has no iteration bound", f.where())
     # 2. complete substitution map
-    maps = [n for n in ast.walk(f.node) if isinstance(n, ast.Assign) and isinstance(n.value, ast.DictComp)]
-    ctx.require(maps, "rhs_matrix: substitution map not found")
-    mp = maps[0]
-    mname = norm(mp.targets[0])
-    g = mp.value.generators[0]
-    v = g.target.id if isinstance(g.target, ast.Name) else "?"
-    okm = norm(mp.value.key) == f"{v}.symbol" and norm(mp.value.value) == f"{v}.expr" and not g.ifs and norm(g.iter).replace("ode.", "").startswith("intermediates")
-    ctx.check(okm, "R20.b", f.key("map"), "map = {x.symbol: x.expr for every intermediate}", f"rhs_matrix: the substitution map is `{norm(mp.value)}`, not symbol -> expr for every intermediate", f.where(mp))
-    xr = [c for c in ast.walk(w) if isinstance(c, ast.Call) and isinstance(c.func, ast.Attribute) and c.func.attr in ("xreplace", "subs")]
-    okx = bool(xr) and all(len(c.args) == 1 and norm(c.args[0]) == mname for c in xr)
-    ctx.check(okx, "R20.b", f.key("substitute-full-map"), "each pass substitutes the complete map", f"rhs_matrix: a pass substitutes {[norm(c.args[0]) if c.args else None for c in xr]} instead of the complete map `{mname}`", f.where(w))
+    if mapv is None or _av.has_unk(mapv):
+        ctx.undecided("R20.b", f.key("map"), "the substitution map passed to xreplace is not understood", f.where())
+    else:
+        mv_ = _av._unwrap_seq(mapv)
+        okm = False
+        if mv_[0] == "comp" and len(mv_[3]) == 1 and not mv_[4]:
+            bv = ("bv", mv_[1])
+            src = _av.show(mv_[2]).replace("self.ode.", "ode.")
+            okm = mv_[3][0] == ("kv", ("attr", bv, "symbol"), ("attr", bv, "expr")) and src in ("(ode.intermediates + ode.state_derivatives)", "(ode.state_derivatives + ode.intermediates)")
+        ctx.check(okm, "R20.b", f.key("map"), "map = {x.symbol: x.expr for every intermediate and state derivative}", f"rhs_matrix: the substitution map is `{_av.show(mapv)[:160]}`, not symbol -> expr for every intermediate and state derivative", f.where())
+    okx = bool(xr) and mname is not None and all(len(c.args) == 1 and norm(c.args[0]) == mname for c in xr)
+    ctx.check(okx, "R20.b", f.key("substitute-full-map"), "each pass substitutes the complete map", f"rhs_matrix: a pass substitutes {[norm(c.args[0]) if c.args else None for c in xr]} instead of one complete map", f.where(w))
     muts = []
     for n in ast.walk(w):
         if isinstance(n, ast.Delete):
@@ -58,16 +101,19 @@ def run(ctx: Ctx):
             muts.append(norm(n)[:60])
     ctx.check(not muts, "R20.b", f.key("map-not-mutated"), "the map is not modified while substituting", f"rhs_matrix modifies the substitution map inside the loop ({muts}): an intermediate expanded early can be re-introduced later and stay in the result", f.where(w))
     # 3. the loop condition and the error test are "intermediates are left"
-    def mentions_left(node) -> bool:
-        t = norm(node)
-        return "has_intermediates" in t or (".has(" in t and mname in t)
-    ctx.check(mentions_left(w.test), "R20.b", f.key("loop-condition"), "loop runs while intermediates are left", "rhs_matrix: the loop condition does not test whether intermediates are left in the result", f.where(w))
+    if isinstance(w, ast.While):
+        tests = [w.test.values[i] for i in range(len(w.test.values))] if isinstance(w.test, ast.BoolOp) and isinstance(w.test.op, ast.And) else [w.test]
+        okl = any(left_pred(t) for t in tests)
+    else:
+        brks = [n for n in ast.walk(w) if isinstance(n, ast.If) and any(isinstance(s_, ast.Break) for s_ in n.body)]
+        okl = any(isinstance(n.test, ast.UnaryOp) and isinstance(n.test.op, ast.Not) and left_pred(n.test.operand) for n in brks)
+    ctx.check(okl, "R20.b", f.key("loop-condition"), "loop runs while intermediates are left", "rhs_matrix: the loop does not run exactly while keys of the substitution map are left in the result", f.where(w))
     raises = [n for n in ast.walk(f.node) if isinstance(n, ast.Raise)]
     for r in raises:
-        from .common import cond_chain
+        guards = [n for n in ast.walk(f.node) if isinstance(n, ast.If) and any(x is r for b_ in n.body for x in ast.walk(b_))]
+        okc = any(left_pred(g_.test) and not (isinstance(g_.test, ast.UnaryOp)) for g_ in guards)
         chain = cond_chain(f.node, r) or []
-        okc = any(pol and ("has_intermediates" in c or (".has(" in c and mname in c)) for c, pol in chain)
-        ctx.check(okc, "R20.b", f.key("error-only-if-left"), "error only if intermediates are left", f"rhs_matrix raises under {chain}: the error does not depend on intermediates actually being left (a model that was fully expanded on the last allowed pass is refused)", f.where(r))
+        ctx.check(okc, "R20.b", f.key("error-only-if-left"), "error only if intermediates are left", f"rhs_matrix raises under {[c for c, _ in chain]}: the error does not depend on intermediates actually being left (a model that was fully expanded on the last allowed pass is refused)", f.where(r))
     # 4. call sites inside the package do not re-introduce a constant bound
     for g2 in sm.all_funcs():
         for c in find_calls(g2.node, "rhs_matrix"):
@@ -87,10 +133,11 @@ def run(ctx: Ctx):
 
     ctx.rule("R20.c", "jacobi_matrix differentiates rhs_matrix(ode) with respect to states_matrix(ode)", floor=1)
     j = sm.func("sympytools.py", "jacobi_matrix")
-    rets = [n for n in ast.walk(j.node) if isinstance(n, ast.Return)]
-    okj = False
-    if rets and isinstance(rets[-1].value, ast.Call):
-        c = rets[-1].value
-        if isinstance(c.func, ast.Attribute) and c.func.attr == "jacobian" and isinstance(c.func.value, ast.Call) and c.args and isinstance(c.args[0], ast.Call):
-            okj = (dotted(c.func.value.func) or "").endswith("rhs_matrix") and (dotted(c.args[0].func) or "").endswith("states_matrix") and norm(c.func.value.args[0]) == norm(c.args[0].args[0]) == j.params[0]
-    ctx.check(okj, "R20.c", j.key("wiring"), "rhs_matrix(ode).jacobian(states_matrix(ode))", "jacobi_matrix is not rhs_matrix(ode).jacobian(states_matrix(ode))", j.where())
+    jv = util.value_of(ctx, j)
+    op_ = ("sym", j.params[0])
+    want = ("mcall", ("call", "rhs_matrix", (op_,), ()), "jacobian", (("call", "states_matrix", (op_,), ()),), ())
+    vd = util.verdict(jv, [want])
+    if vd == "unknown":
+        ctx.undecided("R20.c", j.key("wiring"), "what jacobi_matrix returns is not understood", j.where())
+    else:
+        ctx.check(vd == "ok", "R20.c", j.key("wiring"), "rhs_matrix(ode).jacobian(states_matrix(ode))", f"jacobi_matrix returns {_av.show(jv)[:120]}, not rhs_matrix(ode).jacobian(states_matrix(ode))", j.where())
